@@ -117,6 +117,62 @@ def gen_ops16(name, rnd):
     return {'': [], 'r': [R()], 'rr': [R(), R()], 'i': [imm], 'ri': [R(), imm], 'rri': [R(), R(), imm]}[shape]
 
 
+def assemble_line_c(asm, line):
+    try:
+        b = bytes(asm.assemble(line, compress=True))
+        return 'ok', b
+    except asm.AssemblerError:
+        return 'asmerr', None
+    except Exception as e:
+        return 'exc ' + type(e).__name__, None
+
+
+def compress_shapes(tier, rnd):
+    """32-bit lines in the register shapes the compression criteria look at (rd = rs, x0, sp, the x8..x15 window) with
+    immediates on and beyond both ends of the 32-bit interval: with -c the range check of the 32-bit instruction must
+    not be lost to a compressed form that has no (or a narrower) immediate field"""
+    n = 1500 if tier == 'quick' else 20000
+    out = []
+    lowr = lambda: rnd.randrange(8, 16)
+    anyr = lambda: rnd.randrange(1, 32)
+    for _ in range(n):
+        k = rnd.randrange(12)
+        far = rnd.choice([2048, -2049, 4096, -4096, 2 ** 12 + 1, 65536, -65536, 2 ** 31, -2 ** 31 - 1, 2 ** 32, 2 ** 32 + 1])
+        imm = rnd.choice([far, far, edgey(rnd, -2048, 2047)])
+        if k == 0:
+            out.append(('addi', 32, [('r', 0), ('r', 0), ('i', imm)]))
+        elif k == 1:
+            r = anyr(); out.append(('addi', 32, [('r', r), ('r', r), ('i', imm)]))
+        elif k == 2:
+            out.append(('addi', 32, [('r', anyr()), ('r', 0), ('i', imm)]))
+        elif k == 3:
+            out.append(('addi', 32, [('r', 2), ('r', 2), ('i', imm)]))
+        elif k == 4:
+            out.append(('addi', 32, [('r', lowr()), ('r', 2), ('i', imm)]))
+        elif k == 5:
+            out.append((rnd.choice(['lw', 'sw']), 32, [('r', lowr()), ('r', rnd.choice([2, lowr()])), ('i', imm)]))
+        elif k == 6:
+            r = lowr()
+            nm = rnd.choice(['andi', 'srli', 'srai', 'slli'])
+            if nm == 'andi':
+                out.append((nm, 32, [('r', r), ('r', r), ('i', rnd.choice([imm, 32, 33, 64, -1, 31, -32, -33]))]))
+            else:
+                # the shift amount travels in the rs2 field: 0..31 denote, anything else does not
+                sh = rnd.choice([0, 1, 31, 16, 32, 33, 64, -1])
+                out.append((nm, 32, [('r', r), ('r', r), ('r', sh) if 0 <= sh < 32 else ('k', sh)]))
+        elif k == 7:
+            out.append(('lui', 32, [('r', anyr()), ('i', rnd.choice([0x100000, -0x80001, 0x100005, 2 ** 32, -2 ** 31, edgey(rnd, -0x80000, 0xfffff)]))]))
+        elif k == 8:
+            out.append(('jal', 32, [('r', rnd.choice([0, 1])), ('i', rnd.choice([2 ** 20, -2 ** 20 - 2, 2 ** 21, 2 ** 32, 3, -1, edgey(rnd, -2048, 2046, 2)]))]))
+        elif k == 9:
+            out.append((rnd.choice(['beq', 'bne']), 32, [('r', lowr()), ('r', 0), ('i', rnd.choice([4096, -4098, 8192, 2 ** 32, 1, 255, edgey(rnd, -256, 254, 2)]))]))
+        elif k == 10:
+            out.append(('jalr', 32, [('r', rnd.choice([0, 1])), ('r', anyr()), ('i', imm)]))
+        else:
+            r = anyr(); out.append(('addi', 32, [('r', r), ('r', rnd.choice([r, anyr()])), ('i', rnd.choice([0, imm]))]))
+    return out
+
+
 def run(prop, tier, rep):
     """returns the number of distinct non-trivial text cases evaluated"""
     asm = importlib.import_module('bronzebeard.asm')
@@ -167,9 +223,36 @@ def run(prop, tier, rep):
         if len(rep.samples) < 10 and st == 'ok':
             rep.sample('{!r} -> {}'.format(line, b.hex()))
     n = len(rows)
+    if prop == 'C06':
+        n += run_compress_shapes(asm, tier, rnd, rep)
     if prop == 'C02':
         n += reverse_halfwords(asm, rep)
     return n
+
+
+def run_compress_shapes(asm, tier, rnd, rep):
+    cases = compress_shapes(tier, rnd)
+    req, rows, seen = [], [], set()
+    for k, (name, width, ops) in enumerate(cases):
+        line = render(name, ops, k)
+        if line in seen:
+            continue
+        seen.add(line)
+        st, b = assemble_line_c(asm, line)
+        iops = encsweep.intent_ops(ops)
+        req.append('legal32 %s %s' % (name, ' '.join(iops)))
+        rows.append((line, name, ops, st, b))
+    out = common.drv(req)
+    for (line, name, ops, st, b), lg in zip(rows, out):
+        rep.evaluations += 1
+        rep.count('text_c_' + st.split()[0])
+        case = dict(line=line, name=name, ops=[list(o) for o in ops], status=st, bytes=b.hex() if b else None, legal=lg, compress=True)
+        if lg == 'yes' and st != 'ok':
+            rep.violation('with -c the legal line {!r} was refused ({})'.format(line, st), dict(case=case, text_line=line, compress=True))
+        if lg != 'yes' and st == 'ok':
+            rep.violation('with -c the line {!r} is not representable but assembled to {}'.format(line, b.hex()),
+                          dict(case=case, text_line=line, compress=True))
+    return len(rows)
 
 
 def reverse_halfwords(asm, rep):
